@@ -64,6 +64,7 @@ class Check:
         self.rule_text = {}
         self.tainted = {}
         self.maybe_nodes = set()
+        self.conv_votes = {}
 
     # ------------------------------------------------------------ recording
     def ob(self, rule, construct, verdict, detail="", rel="", node=None, line=0, nontrivial=True):
@@ -101,6 +102,17 @@ class Check:
         """a refutation derived from the analysis of a function that contains constructs the analysis cannot
         follow (a call it cannot resolve, a container escaping into it) is not definite: the refuting state may
         exist only because the effect of that construct is unknown.  Such verdicts become UNKNOWN."""
+        # the converter follows an operation sequence it does not produce: its analysis is path-insensitive in the order of
+        # operations, so a state reached on *some* analysis path may belong to an order the builders never emit.  A
+        # refutation at a converter yield is definite only if every (non-early) record of that yield refutes.
+        for o in self.obs:
+            votes = self.conv_votes.get(o.key())
+            if o.verdict == REFUTED and votes is not None:
+                main = [v for v, early in votes if not early]
+                if not main or not all(v is False for v in main):
+                    o.verdict = UNKNOWN
+                    o.detail = ("not definite (converter: the refuting state is reached only on some analysis paths; which "
+                                "operation order occurs depends on the sequence) -- " + o.detail)
         for o in self.obs:
             if o.verdict != REFUTED:
                 continue
